@@ -113,6 +113,8 @@ func (e *Env) eval(ex Expr) Value {
 			return boolV(Not(v.Term))
 		case "-":
 			return Value{Term: app("-", v.Term), Sort: v.Sort, Typ: v.Typ}
+		case "*":
+			return x.load(e.st, v, false)
 		}
 	case *EBinary:
 		return e.binary(ex)
@@ -532,6 +534,26 @@ func (e *Env) call(ex *ECall) Value {
 		case "ncalls":
 			nm := exprText(ex.Args[0])
 			return intV(x.callCount(e.st, nm))
+		case "lastret", "lastarg":
+			nm := exprText(ex.Args[0])
+			iv, ok := ex.Args[1].(*EInt)
+			if !ok {
+				e.errf("%s(Name, i)", id.Name)
+			}
+			var i int
+			fmt.Sscanf(iv.V, "%d", &i)
+			rec := e.st.lastCall(nm)
+			if rec == nil {
+				e.errf("no logged call of %s on this path", nm)
+			}
+			vs := rec.Rets
+			if id.Name == "lastarg" {
+				vs = rec.Args
+			}
+			if i >= len(vs) {
+				e.errf("%s index out of range", id.Name)
+			}
+			return vs[i]
 		case "unbox":
 			v := e.eval(ex.Args[0])
 			tl, ok := ex.Args[1].(*EType)
@@ -787,6 +809,11 @@ func (x *Exec) lenOf(st *State, v Value, isCap bool, e *Env) string {
 func (x *Exec) callCount(st *State, name string) string {
 	if t, ok := st.Calls[name]; ok {
 		return t
+	}
+	for k, t := range st.Calls {
+		if strings.HasSuffix(k, "."+name) {
+			return t
+		}
 	}
 	return "0"
 }
